@@ -152,3 +152,18 @@ def run(R, tier):
     # kind; token kind, payload bytes and the position left behind are compared with the reference lexer. An element
     # that swallows part of its neighbour (or of the `,` / `;` after it) changes what the handler or the next unit sees.
     lexer.check_elements(R, "R06.7", ("chardata", "decimal", "string", "expression", "block", "non-decimal", "separator"), tier == "thorough")
+
+    # ---- R06.8 the message reaches the lexer as it was given -----------------------------------------------------------------------
+    # Node::run constructs the tokenizer from its `command` argument itself: trimming, re-slicing or copying it first
+    # changes the content of a final data element (the payload of a block may end in white space or NL).
+    bad = []
+    n_new = 0
+    for p in D.run_paths():
+        news = [e for e in p.calls if e.name.endswith(("Tokenizer::new", "Tokenizer::new_params"))]
+        for e in news:
+            n_new += 1
+            if not (e.args and e.args[0] == ("sym", "command", "command")):
+                bad.append("Tokenizer::new(%s)" % (repr(e.args[0])[:120] if e.args else "?"))
+        if len(news) != 1:
+            bad.append("%d tokenizers constructed on one path" % len(news))
+    R.check(not bad and n_new >= 1, "R06.8", "run:message-bytes", "the tokenizer is constructed once, from the message bytes as given", "; ".join(sorted(set(bad))[:3]))
